@@ -189,10 +189,11 @@ theorem PropPath2Pointer_loop1_eq (p : List Ptr.PropSeg) (acc : String) :
     simp only [List.map_cons, Funcs.PropPath2Pointer_loop1, List.foldl_cons]
     cases h : s.isNum <;> simp [Ptr.segToGo, h, ih, Go.fmtD_nat, Go.fmtS, String.append_assoc]
 
-/-- xform.PropPath2Pointer, as translated (its callee patch.MustParsePath is a parameter of the
-    translation, instantiated with the model's parser): the model's `propPath2Pointer`, for all
-    segment lists with non-negative indices (the model's index is a `Nat`). -/
-theorem PropPath2Pointer_generated_eq_model (p : List Ptr.PropSeg) :
+/-- xform.PropPath2Pointer, as translated, with its callee patch.MustParsePath (a parameter of the
+    translation) instantiated with the MODEL's parser — a lemma; the property theorem
+    `PropPath2Pointer_generated_eq_model` at the end of this file instantiates the parameter with the
+    TRANSLATED `MustParsePath`. -/
+theorem PropPath2Pointer_param_eq_model (p : List Ptr.PropSeg) :
     Funcs.PropPath2Pointer Ptr.mustParseRes (p.map Ptr.segToGo)
       = (match Ptr.propPath2Pointer p with
          | .ok q => Go.Res.ok q
@@ -280,5 +281,194 @@ theorem PathString_generated_eq_model (p : List String) : Funcs.PathString p = .
   | nil => simp [Go.lenL_beq_zero, Ptr.ptrString]
   | cons t ts =>
     simp [Go.lenL_beq_zero, PathString_loop1_eq]
+
+end Ytk.C10
+
+/-! ## patch.ParsePath / patch.MustParsePath, as translated, against `Ptr.parseS` (all strings) -/
+namespace Ytk.C10
+open Ytk.Generated
+
+/-- what `ParsePath` does behind its loop: the last segment is appended, no error -/
+def ppFinish : (List String × String × Int) → Go.Res (List String × Go.Error)
+  | (ps, cs, _) => .ok (ps ++ [cs], none)
+
+theorem index_second (pre : List Char) (c n : Char) (r : List Char) :
+    Go.index (pre ++ c :: n :: r) ((pre.length : Int) + 1) = .ok n := by
+  have := Go.index_append_length (pre ++ [c]) n r
+  simpa using this
+
+/-- the rune loop of the translated `ParsePath` (the index variable is advanced inside the body for
+    `~0` / `~1`) IS the model's `Ptr.scan`: no panic, fuel `len(rps)+1` suffices -/
+theorem ParsePath_loop1_eq : ∀ (k : Nat) (suf : List Char), suf.length ≤ k →
+    ∀ (pre : List Char) (ps : List String) (cs : String) (fuel : Nat), suf.length + 1 ≤ fuel →
+    (Funcs.ParsePath_loop1 (pre ++ suf) fuel ps cs (pre.length : Int) >>= ppFinish)
+      = .ok (ps ++ (Ptr.scan suf cs.toList).map String.ofList, none) := by
+  intro k
+  induction k with
+  | zero =>
+    intro suf hk pre ps cs fuel hf
+    have : suf = [] := List.eq_nil_of_length_eq_zero (by omega)
+    subst this
+    cases fuel with
+    | zero => omega
+    | succ f => simp [Funcs.ParsePath_loop1, Go.lenL, Ptr.scan, ppFinish]
+  | succ k ih =>
+    intro suf hk pre ps cs fuel hf
+    cases fuel with
+    | zero => omega
+    | succ f =>
+      cases suf with
+      | nil => simp [Funcs.ParsePath_loop1, Go.lenL, Ptr.scan, ppFinish]
+      | cons c rest =>
+        have hlt : (pre.length : Int) < Go.lenL (pre ++ c :: rest) := by simp [Go.lenL]; omega
+        have e1 : (pre.length : Int) + 1 = ((pre ++ [c]).length : Int) := by simp
+        have a1 : pre ++ c :: rest = (pre ++ [c]) ++ rest := by simp
+        simp only [List.length_cons] at hk hf
+        have ihA : ∀ (ps : List String) (cs : String), 
+            (Funcs.ParsePath_loop1 (pre ++ c :: rest) f ps cs ((pre.length : Int) + 1) >>= ppFinish)
+              = .ok (ps ++ (Ptr.scan rest cs.toList).map String.ofList, none) := by
+          intro ps cs
+          rw [e1, a1]
+          exact ih rest (by omega) (pre ++ [c]) ps cs f (by omega)
+        cases hb1 : (c == '~') with
+        | true =>
+          have h1 : c = '~' := by simpa using hb1
+          cases rest with
+          | nil =>
+            have hnl : ¬ ((pre.length : Int) < Go.lenL (pre ++ [c]) - 1) := by simp [Go.lenL]
+            simp only [Funcs.ParsePath_loop1, hlt, decide_true, if_true, Go.index_append_length, Go.Res.ok_bind, hnl,
+              decide_false, Bool.false_eq_true, if_false, hb1]
+            rw [ihA]
+            simp [h1, Ptr.scan, String.toList_push]
+          | cons n r =>
+            have hl : ((pre.length : Int) < Go.lenL (pre ++ c :: n :: r) - 1) := by simp [Go.lenL]; omega
+            have e2 : (pre.length : Int) + 1 + 1 = ((pre ++ [c, n]).length : Int) := by simp; omega
+            have a2 : pre ++ c :: n :: r = (pre ++ [c, n]) ++ r := by simp
+            have ihB : ∀ (ps : List String) (cs : String), 
+                (Funcs.ParsePath_loop1 (pre ++ c :: n :: r) f ps cs ((pre.length : Int) + 1 + 1) >>= ppFinish)
+                  = .ok (ps ++ (Ptr.scan r cs.toList).map String.ofList, none) := by
+              intro ps cs
+              rw [e2, a2]
+              exact ih r (by simp at hk; omega) (pre ++ [c, n]) ps cs f (by simp at hf; omega)
+            simp only [Funcs.ParsePath_loop1, hlt, decide_true, if_true, Go.index_append_length, Go.Res.ok_bind,
+              hl, index_second, hb1]
+            cases hb3 : (n == '1') with
+            | true =>
+              have h3 : n = '1' := by simpa using hb3
+              simp only [if_true]
+              rw [ihB]
+              simp [h1, h3, Ptr.scan, String.toList_push]
+            | false =>
+              have h3 : n ≠ '1' := by simpa using hb3
+              cases hb4 : (n == '0') with
+              | true =>
+                have h4 : n = '0' := by simpa using hb4
+                simp only [if_true, Bool.false_eq_true, if_false]
+                rw [ihB]
+                simp [h1, h4, Ptr.scan, String.toList_push]
+              | false =>
+                have h4 : n ≠ '0' := by simpa using hb4
+                simp only [Bool.false_eq_true, if_false]
+                rw [ihA]
+                simp [h1, h3, h4, Ptr.scan, String.toList_push]
+        | false =>
+          have h1 : c ≠ '~' := by simpa using hb1
+          have hstep :
+              Funcs.ParsePath_loop1 (pre ++ c :: rest) (f + 1) ps cs (pre.length : Int)
+                = (if (c == '/') = true then Funcs.ParsePath_loop1 (pre ++ c :: rest) f (ps ++ [cs]) "" ((pre.length : Int) + 1)
+                   else Funcs.ParsePath_loop1 (pre ++ c :: rest) f ps (cs.push c) ((pre.length : Int) + 1)) := by
+            simp only [Funcs.ParsePath_loop1, hlt, decide_true, if_true, Go.index_append_length, Go.Res.ok_bind, hb1,
+              Bool.false_eq_true, if_false]
+          rw [hstep]
+          cases hb2 : (c == '/') with
+          | true =>
+            have h2 : c = '/' := by simpa using hb2
+            simp only [if_true]
+            rw [ihA]
+            cases rest with
+            | nil => simp [h2, Ptr.scan]
+            | cons n r => simp [h2, Ptr.scan]
+          | false =>
+            have h2 : c ≠ '/' := by simpa using hb2
+            simp only [Bool.false_eq_true, if_false]
+            rw [ihA]
+            cases rest with
+            | nil => simp [h1, h2, Ptr.scan, String.toList_push]
+            | cons n r => simp [h1, h2, Ptr.scan, String.toList_push]
+
+/-- patch.ParsePath, as translated, for ALL strings: never panics, never runs out of fuel, and
+    `(path, err)` is the model's `Ptr.parseS` — error (with the nil path) exactly for a non-empty
+    string that does not start with '/' -/
+theorem ParsePath_generated_eq_model (s : String) :
+    Funcs.ParsePath s = .ok (match Ptr.parseS s with
+                             | some p => (p, none)
+                             | none => ([], some ())) := by
+  have hunf : ∀ (rps : List Char) (fuel : Nat),
+      (do let (ps, cs, i) ← Funcs.ParsePath_loop1 rps fuel [] "" 0
+          let ps := ps ++ [cs]
+          let cs := ""
+          pure (ps, (none : Go.Error)) : Go.Res (List String × Go.Error))
+        = (Funcs.ParsePath_loop1 rps fuel [] "" 0 >>= ppFinish) := by
+    intro rps fuel
+    congr 1
+  unfold Funcs.ParsePath Ptr.parseS Ptr.ptrParse
+  cases hs : s.toList with
+  | nil =>
+    have : s = "" := by apply String.toList_inj.mp; simpa using hs
+    subst this; simp
+  | cons c r =>
+    have hne : (s == "") = false := by
+      rw [beq_eq_false_iff_ne]; intro e; subst e; simp at hs
+    have hp : Go.hasPrefix s "/" = (c == '/') := by
+      have hcm : ('/' == c) = (c == '/') := by
+        by_cases hc : c = '/'
+        · subst hc; rfl
+        · have h' : ¬ '/' = c := fun e => hc e.symm
+          rw [beq_eq_false_iff_ne.mpr hc, beq_eq_false_iff_ne.mpr h']
+      simp [Go.hasPrefix, hs, List.isPrefixOf, hcm]
+    have hsl : Go.slice s 1 (Go.len s) = .ok (String.ofList r) := by
+      have := Go.slice_nat s 1 s.toList.length (by rw [hs]; simp) (Nat.le_refl _)
+      rw [Go.len_eq]
+      simp only [Int.natCast_one] at this
+      rw [this, hs]; simp
+    simp only [hne, Bool.false_eq_true, if_false, hp]
+    by_cases hc : c = '/'
+    · subst hc
+      have hl := ParsePath_loop1_eq r.length r (Nat.le_refl _) [] [] "" (r.length + 1) (Nat.le_refl _)
+      simp only [List.nil_append, List.length_nil, Int.natCast_zero, String.toList_empty] at hl
+      have hf : (Go.lenL (Go.runes (String.ofList r)) + 1).toNat = r.length + 1 := by
+        simp [Go.lenL, Go.runes]
+      simp only [beq_self_eq_true, Bool.not_true, Bool.false_eq_true, if_false, hsl, Go.Res.ok_bind, hf]
+      rw [hunf]
+      simp [Go.runes, hl]
+    · simp [hc]
+
+/-- patch.MustParsePath, as translated, for ALL strings: the model's parser, panic ↔ error -/
+theorem MustParsePath_generated_eq_model (s : String) :
+    Funcs.MustParsePath s = (match Ptr.parseS s with
+                             | some p => .ok p
+                             | none => .panic) := by
+  unfold Funcs.MustParsePath
+  rw [ParsePath_generated_eq_model]
+  cases Ptr.parseS s <;> simp
+
+theorem nonvacuous_ParsePath :
+    Funcs.ParsePath "/a~1b/~0/~" = .ok (["a/b", "~", "~"], none) ∧
+    Funcs.ParsePath "a" = .ok ([], some ()) ∧ Funcs.MustParsePath "a" = .panic ∧
+    Funcs.ParsePath "" = .ok ([], none) ∧ Funcs.ParsePath "/" = .ok ([""], none) := by
+  decide
+
+/-- xform.PropPath2Pointer, as translated, its callee patch.MustParsePath being the TRANSLATED
+    `MustParsePath` (no model function is passed in any more): the model's `propPath2Pointer`, for
+    all segment lists with non-negative indices (the model's index is a `Nat`). -/
+theorem PropPath2Pointer_generated_eq_model (p : List Ptr.PropSeg) :
+    Funcs.PropPath2Pointer Funcs.MustParsePath (p.map Ptr.segToGo)
+      = (match Ptr.propPath2Pointer p with
+         | .ok q => Go.Res.ok q
+         | _ => Go.Res.panic) := by
+  have : Funcs.MustParsePath = Ptr.mustParseRes := by
+    funext s; rw [MustParsePath_generated_eq_model]; rfl
+  rw [this]
+  exact PropPath2Pointer_param_eq_model p
 
 end Ytk.C10
